@@ -149,3 +149,21 @@ func isSnapshot(v interface{}) bool { _, ok := v.(*snapshot); return ok }
 //@   ensures[bounded] len(ce.frames) <= callStackCeiling
 //@   may-panic len(ce.frames) >= callStackCeiling
 //@   modifies ce.frames, elems(ce.frames)
+
+// ---- C05 / C02 / C08: the interpreter's main loop, one operation at a time.
+// Each `case` contract runs callNativeFunc on a function whose body is exactly one operation of the
+// named kind, with symbolic operands on the stack: the postcondition is the WebAssembly semantics of
+// that instruction, for all operand values. (The loop is unrolled: one iteration, then it must exit.)
+
+// oneOp: f's body is the single operation kind k (and f belongs to an interpreter module instance).
+func oneOp(f *function, k operationKind) bool {
+	return f != nil && f.parent != nil && len(f.parent.body) == 1 && f.parent.body[0].Kind == k && meOK(f)
+}
+
+func meOK(f *function) bool {
+	if f.moduleInstance == nil {
+		return false
+	}
+	me, ok := f.moduleInstance.Engine.(*moduleEngine)
+	return ok && me != nil
+}
